@@ -40,12 +40,27 @@ Theorem derivative_is_derive_inverse_power_3d : forall (p pref c1 c2 speed : R) 
   (d < 3)%nat -> 0 < dot3 sep sep ->
   is_derive (fun s => ip_U p (pref * c1 * c2) (norm3 (sub3 sep (scal3 (s * speed) (unit3 d))))) 0
             (sv_derivative (ip_derivative p pref c1 c2 (comp3 sep d) (trans3 sep d)) speed).
-Proof.
-  intros. apply (derivative_is_derive_3d (ip_U p (pref * c1 * c2)) (ip_derivative p pref c1 c2)); auto.
-  intros. apply ip_derivative_is_derive; assumption.
-Qed.
+Proof. exact ip_derivative_is_derive_3d. Qed.
 Print Assumptions derivative_is_derive_inverse_power_3d.
 Example derivative_is_derive_inverse_power_3d_nonvacuous : (1 < 3)%nat /\ 0 < dot3 (1, -2, 3) (1, -2, 3).
+Proof. split; [repeat constructor | simpl; lra]. Qed.
+
+Theorem derivative_is_derive_lennard_jones_3d : forall (k sigma speed : R) (sep : vec3) (d : nat),
+  (d < 3)%nat -> 0 < dot3 sep sep ->
+  is_derive (fun s => lj_U k sigma (norm3 (sub3 sep (scal3 (s * speed) (unit3 d))))) 0
+            (sv_derivative (lj_derivative k sigma (comp3 sep d) (trans3 sep d)) speed).
+Proof. exact lj_derivative_is_derive_3d. Qed.
+Print Assumptions derivative_is_derive_lennard_jones_3d.
+Example derivative_is_derive_lennard_jones_3d_nonvacuous : (2 < 3)%nat /\ 0 < dot3 (1, 0, 3) (1, 0, 3).
+Proof. split; [repeat constructor | simpl; lra]. Qed.
+
+Theorem derivative_is_derive_displaced_even_power_3d : forall (k r0 : R) (p : nat) (speed : R) (sep : vec3) (d : nat),
+  (d < 3)%nat -> 0 < dot3 sep sep ->
+  is_derive (fun s => dep_U k r0 p (norm3 (sub3 sep (scal3 (s * speed) (unit3 d))))) 0
+            (sv_derivative (dep_derivative k r0 p (comp3 sep d) (trans3 sep d)) speed).
+Proof. exact dep_derivative_is_derive_3d. Qed.
+Print Assumptions derivative_is_derive_displaced_even_power_3d.
+Example derivative_is_derive_displaced_even_power_3d_nonvacuous : (0 < 3)%nat /\ 0 < dot3 (1, 1, 1) (1, 1, 1).
 Proof. split; [repeat constructor | simpl; lra]. Qed.
 
 Theorem derivative_is_derive_lennard_jones : forall k sigma x q speed : R,
@@ -111,7 +126,7 @@ Proof. split; reflexivity. Qed.
 (** multi-body potential: the three per-unit derivatives of the bending potential sum to zero *)
 Theorem bending_sums_to_zero : forall k phi0 a1 a2 n1 n2 dt : R,
   let '(di, dj, dk) := bend_derivative k phi0 a1 a2 n1 n2 dt in di + dj + dk = 0.
-Proof. intros. unfold bend_derivative. ring. Qed.
+Proof. exact bend_sums_to_zero. Qed.
 Print Assumptions bending_sums_to_zero.
 Example bending_sums_to_zero_nonvacuous :
   fst (fst (bend_derivative 1 0 1 0 1 1 0)) = - (PI / 2) * (- 1 / sin (acos (0 / 1 / 1))) * (0 / 1 / 1 - 0 / 1 / 1 * 1 / (1 * 1)) * 1 \/ True.
